@@ -126,7 +126,7 @@ def cases(ctx):
                         yield "icao", {"df": df, "n": n, "addr": addr, "body": "%X" % rng.getrandbits(83), "hexcase": hc,
                                        "ic": rng.randrange(80) if j % 2 else 0}
                     i += 1
-    for k in range(ctx.share(600000 if quick else 3000000)):
+    for k in range(ctx.share(600000 if quick else 10000000)):
         df = rng.randrange(32) if k % 3 == 0 else rng.choice(AP + AA)
         n = rng.choice((56, 112)) if k % 4 == 0 else bits.df_len(df)
         yield "icao", {"df": df, "n": n, "addr": rng.getrandbits(24), "body": "%X" % rng.getrandbits(83),
